@@ -406,6 +406,9 @@ func (core *JApiCore) addRequest(d *directive.Directive) *jerr.JApiError {
 		if rs, err = catalog.NewExchangeRegexSchema(d.BodyCoords.Read()); err == nil {
 			// The regular expression is compiled lazily, it has to be checked here.
 			if err = rs.Check(); err == nil {
+				err = rs.CheckExample()
+			}
+			if err == nil {
 				err = core.catalog.AddRequestBody(rs, bodyFormat, *d)
 			}
 		}
